@@ -1,7 +1,9 @@
 import TexelVerif.Conc.StepG4e
 /-! Shared locations of the thread communication layer, their protection discipline, and the accesses
-    each model step performs (property C09).  The table is read off the C++ source; its completeness is
-    validated dynamically (ThreadSanitizer), not proved. -/
+    each model step performs (property C09).  The table is read off the C++ source; that the source's
+    data members obey it (locks held at every site, atomic types, complete member list of the thread-layer classes) is checked
+    statically by `Conc/LockTable.lean` + `Bridge/LockFacts.lean` over facts regenerated from the source (tools/locktie.py);
+    what a lexical analysis cannot see (thread roles, globals, aliasing) is validated dynamically (ThreadSanitizer). -/
 namespace Conc
 
 variable {n : Nat}
